@@ -62,14 +62,6 @@ def arithTags (op : ArithOp) (w : IW) (a b : Arr Int) : List String :=
     if validRowFaultB op w a b' then ["arith:overflow-panics:" ++ nm]
     else ["arith:null-slot-faults:" ++ nm]
 
-/-- LIKE: the pattern is translated to a regex without escaping (`.` is a wildcard), the regex
-`.` does not match a line feed, an unclosed `(` is a panic. -/
-def likeTags (p : String) (x : Arr String) : List String :=
-  if likePanics p.toList then ["like:invalid-regex-panics"]
-  else if x.any (fun s => s.valid && likeImpl p s.raw != likeSpec p s.raw) then
-    (if p.toList.contains '.' then ["like:regex-metachar-unescaped"] else ["like:wildcard-skips-newline"])
-  else []
-
 /-- `Evaluator::eval`: result and the reason tags collected at the nodes evaluated. A failing
 node stops the evaluation (`?`). -/
 def evalK (chunk : List Col) (n : Nat) : KExpr → KOut Col × List String
@@ -109,10 +101,7 @@ def evalK (chunk : List Col) (n : Nat) : KExpr → KOut Col × List String
     | (.ok ca, ta) =>
       match evalK chunk n b with
       | (.ok cb, tb) =>
-        let tg := match ca, cb with
-          | .bool x, .bool y =>
-            if rawFalseUnderNullB x && rawFalseUnderNullB y then [] else ["or:raw-true-under-null"]
-          | _, _ => if ca.ty == .null || cb.ty == .null then ["kernel:null-typed-operand"] else []
+        let tg := if (ca.ty == .null || cb.ty == .null) then ["kernel:null-typed-operand"] else []
         (Col.or ca cb, ta ++ tb ++ tg)
       | (r, tb) => (r, ta ++ tb)
     | (r, ta) => (r, ta)
@@ -124,7 +113,6 @@ def evalK (chunk : List Col) (n : Nat) : KExpr → KOut Col × List String
     match evalK chunk n a with
     | (.ok ca, ta) =>
       let tg := match ca with
-        | .int .w16 _ => ["neg:no-arm-int16"]
         | .int w x => if x.all (fun s => (negW w s.raw).isOk) then []
             else if x.any (fun s => s.valid && !(negW w s.raw).isOk) then ["arith:overflow-panics:neg"]
             else ["arith:null-slot-faults:neg"]
@@ -143,10 +131,7 @@ def evalK (chunk : List Col) (n : Nat) : KExpr → KOut Col × List String
       | (.ok ct, tt) =>
         match evalK chunk n e with
         | (.ok ce, te) =>
-          let tg := match cc, ct, ce with
-            | .bool _, .bool _, .bool _ => ["select:no-arm-bool"]
-            | .bool _, .str _, .str _ => ["select:no-arm-string"]
-            | _, _, _ => if cc.ty == .null || ct.ty == .null || ce.ty == .null
+          let tg := if cc.ty == .null || ct.ty == .null || ce.ty == .null
                 then ["kernel:null-typed-operand"] else []
           (Col.select cc ct ce, tc ++ tt ++ te ++ tg)
         | (r, te) => (r, tc ++ tt ++ te)
@@ -168,11 +153,7 @@ def evalK (chunk : List Col) (n : Nat) : KExpr → KOut Col × List String
   | .like a p =>
     match evalK chunk n a with
     | (.ok ca, ta) =>
-      let tg := match ca with
-        | .str x => likeTags p x
-        | .null _ => ["kernel:null-typed-operand"]
-        | _ => []
-      (Col.like p ca, ta ++ tg)
+      (Col.like p ca, ta ++ (if ca.ty == .null then ["kernel:null-typed-operand"] else []))
     | (r, ta) => (r, ta)
   | .substring s b c =>
     match evalK chunk n s with
